@@ -97,5 +97,5 @@ func cmdRun(args []string) int {
 	return 0
 }
 
-func cmdCheck(args []string) int  { fmt.Fprintln(os.Stderr, "not yet"); return 2 }
-func cmdReplay(args []string) int { fmt.Fprintln(os.Stderr, "not yet"); return 2 }
+
+
